@@ -377,6 +377,38 @@ def evalLauth (p : Pending) (obsToks : List String) : String :=
   let head := s!"RES {p.prop} {p.id} eq={b eq} hm={b hm} hi={b hi} miss={b (!badTok.isEmpty || ops.length != p.toks.length)} crash={b (obsToks.contains "crash")}"
   if eq && hi && hm && badTok.isEmpty then head else head ++ " | " ++ showLog mlog ++ " | " ++ showLog ilog
 
+/-! language `proxy` -/
+
+def evalProxy (p : Pending) (glob : Oracle) (obsToks : List String) : String :=
+  let ora : Oracle := { urls := glob.urls ++ p.ora.urls, pages := glob.pages ++ p.ora.pages, misc := p.ora.misc }
+  let env := ora.env
+  let refuse := p.toks.contains "refuse"
+  let evs : List Proxy.PEv := p.toks.filterMap fun t =>
+    match fields t with
+    | ["refuse"] => none
+    | ["turn"] => some .turn
+    | ["up", b] => some (.up (unhex b))
+    | ["upclose"] => some .upClose
+    | _ => (parseEvent t).map .sock
+  let stream := C12.clientStream evs
+  let snap := (C01.headOf stream).bind (C01.expect env)
+  let cfg : Proxy.Cfg := { refuse := refuse, path := (snap.map (·.path.drop 1)).getD [] }
+  let mlog := (Proxy.run env cfg evs).sock.log
+  let ilog := (obsToks.filter (· != "end")).filterMap parseObs
+  let badTok := obsToks.filter (fun t => t != "end" && (parseObs t).isNone)
+  let keepR (o : Obs) : Bool := match o with
+    | .del => false | .dc => false | .hp => false | .rr => false | .rd _ => false | .rcf => false | .bw _ => false | _ => true
+  let pm := mergeW (mlog.filter keepR)
+  let pi := mergeW (ilog.filter keepR)
+  let hold (l : List Obs) : Bool := if p.prop == "C13" then C13.holds env cfg evs l else C12.holds env cfg evs l
+  let eq := pm == pi
+  let hm := hold mlog
+  let hi := hold ilog
+  let miss := containsMiss mlog || !badTok.isEmpty
+  let b (x : Bool) := if x then "1" else "0"
+  let head := s!"RES {p.prop} {p.id} eq={b eq} hm={b hm} hi={b hi} miss={b miss} crash={b (obsToks.contains "crash")}"
+  if eq && hi && hm && !miss then head else head ++ " | " ++ showLog pm ++ " | " ++ showLog pi
+
 partial def loop (h : IO.FS.Stream) (glob : Oracle) (cur : Pending) : IO Unit := do
   let line ← h.getLine
   if line.isEmpty then return ()
@@ -398,6 +430,7 @@ partial def loop (h : IO.FS.Stream) (glob : Oracle) (cur : Pending) : IO Unit :=
       | "fs" => evalFs cur glob rest
       | "slot" => evalSlot cur glob rest
       | "lauth" => evalLauth cur rest
+      | "proxy" => evalProxy cur glob rest
       | l => s!"RES {cur.prop} {cur.id} eq=0 hm=0 hi=0 miss=1 crash=0 | unknown language {l}"
     IO.println out
     loop h glob cur
